@@ -744,7 +744,7 @@ class DDLGen:
         for n, d in self.types.items():
             if n != t and (t in d['bases'] or t in d['links'].values()):
                 u.append(n)
-        u += [f for f, pt in self.funcs.items() if pt == t]
+        u += [f for f, pts in self.funcs.items() if t in pts]
         u += [a for a, at in self.aliases.items() if at == t]
         u += [g for g, k in self.globals_.items() if k == t]
         return u
@@ -853,7 +853,10 @@ class DDLGen:
                 subs.append(f'DROP LINK {l};')
                 self.expect('noptr', t, l)
                 d['links'].pop(l, None)
-            elif x < 0.62 and d['props']:
+            elif x < 0.62 and d['props'] and not any('RENAME TO' in y for y in subs):
+                # (at most one rename per command: a second ALTER of the old name in the same
+                # command is resolved against the schema before the command, which makes the
+                # outcome of chained renames a matter of convention rather than of C04)
                 p = r.choice(sorted(d['props']))
                 q = f'p{r.randrange(4)}'
                 subs.append(f'ALTER PROPERTY {p} {{ RENAME TO {q}; }};')
@@ -919,7 +922,7 @@ class DDLGen:
             for x in self.types.values():
                 x['bases'] = [n if b == t else b for b in x['bases']]
                 x['links'] = {k: (n if v == t else v) for k, v in x['links'].items()}
-            self.funcs = {k: (n if v == t else v) for k, v in self.funcs.items()}
+            self.funcs = {k: {(n if v == t else v) for v in vs} for k, vs in self.funcs.items()}
             self.aliases = {k: (n if v == t else v) for k, v in self.aliases.items()}
             self.globals_ = {k: (n if v == t else v) for k, v in self.globals_.items()}
         if n != t:
@@ -982,9 +985,12 @@ class DDLGen:
     def c_func(self):
         r = self.r
         f = f'f{r.randrange(2)}'
-        if f in self.funcs and r.random() < 0.7:
-            pt = self.funcs.pop(f)
-            self.expect('nofunc', f)
+        if self.funcs.get(f) and r.random() < 0.7:
+            pt = r.choice(sorted(self.funcs[f]))
+            self.funcs[f].discard(pt)
+            if not self.funcs[f]:
+                del self.funcs[f]
+                self.expect('nofunc', f)       # other overloads keep the short name alive
             return f'DROP FUNCTION {f}(x: {pt});'
         if self.types and r.random() < 0.6:
             pt = self.tname(True)
@@ -993,8 +999,8 @@ class DDLGen:
             ret = 'str'
         else:
             pt, body, ret = 'int64', '(x + 1)', 'int64'
-        if f not in self.funcs and (pt in self.types or pt == 'int64'):
-            self.funcs[f] = pt
+        if pt in self.types or pt == 'int64':
+            self.funcs.setdefault(f, set()).add(pt)     # overloads by parameter type
         self.expect('func', f)
         return f'CREATE FUNCTION {f}(x: {pt}) -> {ret} USING {body};'
 
